@@ -76,6 +76,8 @@ struct HookEvent {
   size_t effectIndex = 0;  // vb::effects.size() at the time (interleaving with kill effects)
 };
 extern std::vector<HookEvent> hookEvents;
+// the daemon's OomdContext as handed to the scripted plugins (public route to it: no private member of Oomd::Oomd is read)
+extern Oomd::OomdContext* curCtx;
 // hookDecide(hookId, inv, pollIndex) -> true = finished
 extern std::function<bool(const std::string& hook, long inv, int poll)> hookDecide;
 
